@@ -413,6 +413,14 @@ func TestVF_C14Seq(t *testing.T) {
 	c := vfNewCollector("C14", "TestVF_C14Seq")
 	vfCheck(t, c, vfGenC14Seq, func(cs vfC14SeqCase) string {
 		msg := vfC14SeqRun(cs)
+		if msg != "" {
+			// real processes and relays on timeouts of a few seconds: under heavy load a fault-free transfer can time out (and the
+			// rest of the sequence then looks wrong too). A verdict is reported only if the same sequence fails again.
+			if m2 := vfC14SeqRun(cs); m2 == "" {
+				c.inconclusive("not_reproduced")
+				msg = ""
+			}
+		}
 		labels := []string{"e2e_sequence", fmt.Sprintf("relay_hops_%d", cs.Relays)}
 		if cs.Tunnel {
 			labels = append(labels, "through_the_relay_tunnel")
